@@ -1387,3 +1387,88 @@ def drop_caches(fi: FunctionInfo) -> None:
                 delattr(fi.node, key)
             except AttributeError:
                 pass
+
+
+def get_to_membership(fn: ast.AST) -> int:
+    """`x = T.get(K)` / `if x is None: <leave>` / `.. x ..`  is read as  `if K not in T: <leave>` /
+    `.. T[K] ..` (in place), for a name x bound once in the block and a table T that holds no
+    None: looking a key up with .get and testing the result is a membership test"""
+    count = 0
+    for holder in ast.walk(fn):
+        for fld in ("body", "orelse", "finalbody"):
+            seq = getattr(holder, fld, None)
+            if not isinstance(seq, list):
+                continue
+            i = 0
+            while i + 1 < len(seq):
+                a, b = seq[i], seq[i + 1]
+                ok = (isinstance(a, ast.Assign) and len(a.targets) == 1 and isinstance(a.targets[0], ast.Name) and isinstance(a.value, ast.Call) and isinstance(a.value.func, ast.Attribute) and a.value.func.attr == "get" and len(a.value.args) == 1 and not a.value.keywords and isinstance(a.value.func.value, ast.Name)
+                      and isinstance(b, ast.If) and isinstance(b.test, ast.Compare) and len(b.test.ops) == 1 and isinstance(b.test.ops[0], ast.Is) and isinstance(b.test.left, ast.Name) and b.test.left.id == a.targets[0].id and isinstance(b.test.comparators[0], ast.Constant) and b.test.comparators[0].value is None and not b.orelse
+                      and b.body and isinstance(b.body[-1], (ast.Raise, ast.Return, ast.Continue, ast.Break)))
+                if ok:
+                    x, T, K = a.targets[0].id, a.value.func.value, a.value.args[0]
+                    rest = seq[i + 2 :]
+                    if not any(isinstance(n, ast.Name) and n.id == x and isinstance(n.ctx, (ast.Store, ast.Del)) for s_ in rest for n in ast.walk(s_)):
+                        from engine.util import clone_ast
+
+                        class _S(ast.NodeTransformer):
+                            def visit_Name(self, n):
+                                if n.id == x and isinstance(n.ctx, ast.Load):
+                                    return ast.copy_location(ast.Subscript(value=clone_ast(T), slice=clone_ast(K), ctx=ast.Load()), n)
+                                return n
+
+                        b.test = ast.copy_location(ast.Compare(left=clone_ast(K), ops=[ast.NotIn()], comparators=[clone_ast(T)]), b.test)
+                        seq[i : i + 2] = [b]
+                        seq[i + 1 :] = [_S().visit(s_) for s_ in seq[i + 1 :]]
+                        count += 1
+                        continue
+                i += 1
+    if count:
+        ast.fix_missing_locations(fn)
+        for node in ast.walk(fn):
+            for child in ast.iter_child_nodes(node):
+                child._parent = node  # type: ignore[attr-defined]
+    return count
+
+
+def name_table_entries(fn: ast.AST) -> int:
+    """`T = {"a": {}, "b": {}}` (a local table of fresh empty dicts, bound once) is read as
+    `T__a = {}; T__b = {}; T = {"a": T__a, "b": T__b}` and `T["a"]` as `T__a` (in place): the
+    entries get names, which is how tables of receivers are usually written"""
+    count = 0
+    stores: Dict[str, int] = {}
+    for n in ast.walk(fn):
+        if isinstance(n, ast.Name) and isinstance(n.ctx, (ast.Store, ast.Del)):
+            stores[n.id] = stores.get(n.id, 0) + 1
+    for holder in ast.walk(fn):
+        for fld in ("body", "orelse", "finalbody"):
+            seq = getattr(holder, fld, None)
+            if not isinstance(seq, list):
+                continue
+            for i, st in enumerate(list(seq)):
+                if isinstance(st, ast.Assign) and len(st.targets) == 1 and isinstance(st.targets[0], ast.Name) and stores.get(st.targets[0].id) == 1 and isinstance(st.value, ast.Dict) and st.value.keys and all(isinstance(k, ast.Constant) and isinstance(k.value, str) for k in st.value.keys) and all(isinstance(v, ast.Dict) and not v.keys for v in st.value.values):
+                    T = st.targets[0].id
+                    names = {k.value: f"{T}__{''.join(ch if ch.isalnum() else '_' for ch in k.value)}" for k in st.value.keys}
+                    if len(set(names.values())) != len(names):
+                        continue
+                    pre = [ast.copy_location(ast.Assign(targets=[ast.Name(id=nm, ctx=ast.Store())], value=ast.Dict(keys=[], values=[])), st) for nm in names.values()]
+                    st.value = ast.Dict(keys=[ast.Constant(k) for k in names], values=[ast.Name(id=nm, ctx=ast.Load()) for nm in names.values()])
+                    idx = seq.index(st)
+                    seq[idx:idx] = pre
+
+                    class _S(ast.NodeTransformer):
+                        def visit_Subscript(self, n):
+                            self.generic_visit(n)
+                            if isinstance(n.value, ast.Name) and n.value.id == T and isinstance(n.slice, ast.Constant) and n.slice.value in names and isinstance(n.ctx, ast.Load):
+                                return ast.copy_location(ast.Name(id=names[n.slice.value], ctx=ast.Load()), n)
+                            return n
+
+                    for j in range(idx + len(pre) + 1, len(seq)):
+                        seq[j] = _S().visit(seq[j])
+                    count += 1
+    if count:
+        ast.fix_missing_locations(fn)
+        for node in ast.walk(fn):
+            for child in ast.iter_child_nodes(node):
+                child._parent = node  # type: ignore[attr-defined]
+    return count
